@@ -380,6 +380,9 @@ Definition arange_len (start stop p q : Z) : outcome Z :=
   if p =? 0 then Trap
   else let num := (stop - start) * q in
        if (num * p <=? 0) then Val 0 else Val (ceil_div num p).
+(* the same count when start and stop are UNSIGNED (size_t): stop - start is taken in size_t before the conversion to float,
+   so a decreasing range (stop < start, negative step) wraps to a huge difference and a negative quotient: 0 elements *)
+Definition arange_len_unsigned (start stop p q : Z) : outcome Z := arange_len 0 (wrap 64 (stop - start)) p q.
 (* element i, as a numerator over q: start + element_type(index) * step (the index is converted to the element type before the
    product, so a negative integer step stays negative for floating element types too) *)
 Definition arange_elem (start p q i : Z) : Z := start * q + i * p.
